@@ -27,7 +27,7 @@ type guardScope struct {
 }
 
 var guardScopes = []guardScope{
-	{"StrictPathParamUniqueness", `:pathOverlapMsg$|:pathStrippedParamGarbledMsg$`, "doc.go: only the uniqueness of paths up to parameter names can be relaxed (and the warning about the stripped path computed for it)"},
+	{"StrictPathParamUniqueness", `:pathOverlapMsg$|:pathStrippedParamGarbledMsg$|^\(\*SpecValidator\)\.validateParameters:(mapupdate\(|AddErrors$|AddWarnings$)`, "doc.go: only the uniqueness of paths up to parameter names can be relaxed (and the warning about the stripped path computed for it)"},
 	{"EnableArrayMustHaveItemsCheck", `:checkArrayMustHaveItems$|^\(\*objectValidator\)\.checkArrayMustHaveItems:`, "switches the swagger pre-check 'arrays declare items'"},
 	{"EnableObjectArrayTypeCheck", `:checkItemsMustBeTypeArray$|^\(\*objectValidator\)\.checkItemsMustBeTypeArray:`, "switches the swagger pre-check 'items only in arrays'"},
 	{"skipSchemataResult", `:add\w*Schemata$`, "only suppresses the recording of schemata, never a verdict"},
@@ -118,24 +118,26 @@ func GuardScope(p *core.Prog, r *core.Report) {
 			continue
 		}
 		core.EachInstr(f, func(i ssa.Instruction) {
-			c, ok := i.(ssa.CallInstruction)
-			if !ok {
-				return
+			effectName := ""
+			if mu, ok := i.(*ssa.MapUpdate); ok {
+				// bookkeeping that later decides a verdict (e.g. the set of members created from defaults)
+				effectName = "mapupdate(" + typeShort(mu.Map.Type()) + ")"
 			}
-			g := core.StaticCallee(c)
-			if g == nil {
-				return
+			if c, ok := i.(ssa.CallInstruction); ok {
+				if g := core.StaticCallee(c); g != nil {
+					switch {
+					case p.InSubject(g) && strings.HasSuffix(g.Name(), "Msg"):
+						effectName = g.Name()
+					case g.Pkg != nil && strings.HasSuffix(g.Pkg.Pkg.Path(), "go-openapi/errors"):
+						effectName = g.Name()
+					case p.InSubject(g) && (strings.HasPrefix(g.Name(), "check") || strings.HasSuffix(g.Name(), "Schemata")):
+						effectName = g.Name()
+					case p.InSubject(g) && g.Signature.Recv() != nil && isResultPtr(g.Signature.Recv().Type()) && (strings.HasPrefix(g.Name(), "Add") || strings.HasPrefix(strings.ToLower(g.Name()), "merge")):
+						effectName = g.Name()
+					}
+				}
 			}
-			effect := false
-			switch {
-			case p.InSubject(g) && strings.HasSuffix(g.Name(), "Msg"):
-				effect = true
-			case g.Pkg != nil && strings.HasSuffix(g.Pkg.Pkg.Path(), "go-openapi/errors"):
-				effect = true
-			case p.InSubject(g) && (strings.HasPrefix(g.Name(), "check") || strings.HasSuffix(g.Name(), "Schemata")):
-				effect = true
-			}
-			if !effect {
+			if effectName == "" {
 				return
 			}
 			for _, cond := range core.ControlConds(i.Block()) {
@@ -144,7 +146,7 @@ func GuardScope(p *core.Prog, r *core.Report) {
 					if !known {
 						continue // recycling switches and ContinueOnErrors are governed by STATELESS / SLOT-* / MODE-USE
 					}
-					site := fn + ":" + g.Name()
+					site := fn + ":" + effectName
 					if re.MatchString(site) {
 						uses[src].ok = append(uses[src].ok, site)
 					} else {
@@ -161,6 +163,40 @@ func GuardScope(p *core.Prog, r *core.Report) {
 			r.Bad(rule, g.guard, "-", fmt.Sprintf("%s now also decides whether %s happens; its reviewed scope is: %s. A rule that depends on it is switched off for some configurations or member names", g.guard, strings.Join(uniq(u.bad), ", "), g.why))
 		} else {
 			r.OK(rule, g.guard, "-", fmt.Sprintf("controls only what it is documented to control (%d effect sites; %s)", len(uniq(u.ok)), g.why))
+		}
+	}
+	// the exemption predicates themselves: true for every path of at least two segments that ends in the exempted
+	// name (a one-segment root path never is an exemption; a top-level default of a body parameter has exactly two)
+	lenAtom := regexp.MustCompile(`^(\d+)<ret0:len\(`)
+	for _, name := range []string{"isProperties", "isDefault", "isExample"} {
+		f := p.Func("(*objectValidator)." + name)
+		if f == nil {
+			r.Unk(rule, "exemption:"+name, "-", "predicate not found")
+			continue
+		}
+		rt := &router{p: p, recvType: core.NamedOf(f.Signature.Recv().Type()), primitive: map[*ssa.Function]string{}, relevant: func(*ssa.Function) bool { return false }}
+		bounds := map[string]bool{}
+		trueRuns, total := 0, 0
+		rt.enumerate(f, []string{"recv"}, func(run *routeRun) {
+			total++
+			if run.ret == "true" {
+				trueRuns++
+			}
+			for a := range run.atoms {
+				if m := lenAtom.FindStringSubmatch(a); m != nil {
+					bounds[m[1]] = true
+				}
+			}
+		})
+		var bs []string
+		for b := range bounds {
+			bs = append(bs, b)
+		}
+		sort.Strings(bs)
+		if len(bs) == 1 && bs[0] == "1" && trueRuns > 0 {
+			r.OK(rule, "exemption:"+name+":from-two-segments", p.Pos(f.Pos()), fmt.Sprintf("the only length condition is len(path) > 1 (%d paths enumerated, %d exempting)", total, trueRuns))
+		} else {
+			r.Bad(rule, "exemption:"+name+":from-two-segments", p.Pos(f.Pos()), fmt.Sprintf("the exemption must hold for every path of two or more segments ending in the exempted name; the length conditions found are len > %v (exempting paths: %d): a top-level default / example of a body parameter or response (two segments) loses or gains the exemption", bs, trueRuns))
 		}
 	}
 	r.Count("guard_branches", nGuards)
